@@ -247,18 +247,41 @@ type vnStore struct {
 	chain.Store
 	vn   *vnNet
 	node *vnNode
+	// mu makes "inner Put + StorePut event" one atomic step with respect to readers, so that the
+	// trace order is a linearization (a reader can never observe a beacon before its StorePut line).
+	mu sync.RWMutex
+}
+
+func (s *vnStore) Last(ctx context.Context) (*common.Beacon, error) {
+	s.mu.RLock()
+	defer s.mu.RUnlock()
+	return s.Store.Last(ctx)
+}
+
+func (s *vnStore) Get(ctx context.Context, round uint64) (*common.Beacon, error) {
+	s.mu.RLock()
+	defer s.mu.RUnlock()
+	return s.Store.Get(ctx, round)
+}
+
+func (s *vnStore) Cursor(ctx context.Context, fn func(context.Context, chain.Cursor) error) error {
+	s.mu.RLock()
+	defer s.mu.RUnlock()
+	return s.Store.Cursor(ctx, fn)
 }
 
 func (s *vnStore) Put(ctx context.Context, b *common.Beacon) error {
-	err := s.Store.Put(ctx, b)
 	vn := s.vn
-	vn.act()
-	c := vn.c(s.node.addr)
 	verifies := false
 	if b.Round > 0 {
 		chk := &common.Beacon{Round: b.Round, Signature: b.Signature, PreviousSig: b.PreviousSig}
 		verifies = vn.sch.VerifyBeacon(chk, vn.info.PublicKey) == nil
 	}
+	s.mu.Lock()
+	defer s.mu.Unlock()
+	err := s.Store.Put(ctx, b)
+	vn.act()
+	c := vn.c(s.node.addr)
 	aw := b.Round > 0 && atomic.LoadInt64(&c.aggWant) == int64(b.Round)
 	sw := b.Round > 0 && atomic.LoadInt64(&c.syncWant) == int64(b.Round)
 	if aw {
@@ -471,6 +494,10 @@ func vnNewNet(t *testing.T, tr *vlib.Trace, cf vnConf, seed int64) *vnNet {
 
 func (vn *vnNet) openBase(n *vnNode) chain.Store {
 	ctx := context.Background()
+	if vn.chained {
+		// as core.createDBStore does for chained schemes
+		ctx = chain.SetPreviousRequiredOnContext(ctx)
+	}
 	l := log.New(nil, log.ErrorLevel, false)
 	var st chain.Store
 	var err error
@@ -562,9 +589,24 @@ func (vn *vnNet) advance(n *vnNode, to int64) {
 	if to <= now {
 		return
 	}
+	c := vn.c(n.addr)
+	before := atomic.LoadInt64(&c.runTick)
 	n.clk.Advance(time.Duration(to-now) * time.Second)
 	vn.act()
 	vn.tr.Emit("Clock", vlib.E{"node": n.idx, "now": to})
+	// a period boundary was crossed: give the ticker goroutines time to hand the tick to the run loop
+	// (unless the run loop is parked at a gate, or the node is down)
+	floorDiv := func(a, b int64) int64 {
+		q := a / b
+		if a%b != 0 && (a < 0) != (b < 0) {
+			q--
+		}
+		return q
+	}
+	crossed := to >= 0 && floorDiv(to, vn.period) > floorDiv(now, vn.period) || (now < 0 && to >= 0)
+	if crossed && n.up && n.h != nil && (vn.parkedRun == nil || vn.parkedRun(n.addr) == 0) {
+		vlib.Eventually(300*time.Millisecond, func() bool { return atomic.LoadInt64(&c.runTick) > before })
+	}
 }
 
 // partial oracle: does sig verify as a partial of (round, prev) under epoch's public polynomial?
